@@ -3,14 +3,14 @@ package main
 import (
 	"bufio"
 	"bytes"
-	"sort"
-	"strings"
 	"encoding/json"
 	"flag"
 	"fmt"
-	"os"
 	"math"
+	"os"
 	"reflect"
+	"sort"
+	"strings"
 
 	"github.com/cosmos/cosmos-proto/zzverif/proj"
 	"github.com/cosmos/cosmos-proto/zzverif/val"
@@ -46,38 +46,38 @@ type Op struct {
 // Event is an executed Op with what was observed on the pulsar message and on the dynamicpb twin.
 type Event struct {
 	Op
-	Ev      string `json:"ev"`
-	Ok      bool   `json:"ok"`
-	Err     string `json:"err,omitempty"`
-	Panic   string `json:"panic,omitempty"`
-	Out     []int  `json:"out"`
-	N       int    `json:"n"`
-	NDirect int    `json:"n_direct"`
-	St      J      `json:"st,omitempty"`      // struct-level (impl reflection) projection after the op
-	FastEq  bool   `json:"fast_eq"`           // projection through pulsar fast reflection equals St
-	RefOk   bool   `json:"ref_ok"`            // twin outcome
-	RefOut  []int  `json:"ref_out"`           // twin bytes
-	RefN    int    `json:"ref_n"`
-	RefSt   J      `json:"ref_st,omitempty"`  // twin projection
-	RefErr  string `json:"ref_err,omitempty"`
-	Case    int    `json:"case"`
-	Equal     bool   `json:"equal"`      // lib: proto.Equal(current, other)
-	RefEqual  bool   `json:"ref_equal"`
-	EqualSelf bool   `json:"equal_self"` // Equal(m, m), Equal(m, Clone(m)), Equal(pulsar, dynamic twin)
-	CloneOk   bool   `json:"clone_ok"`   // clone equal and independent
-	InitOk    bool   `json:"init_ok"`
-	JSONOk    bool   `json:"json_ok"`    // protojson both directions agree with the reference
-	TextOk    bool   `json:"text_ok"`
-	LibNote   string `json:"lib_note,omitempty"`
-	StBefore J      `json:"st_before,omitempty"` // alias ops: projection before the disturbance
-	OutBefore []int `json:"out_before"`
-	ROChanged []string `json:"ro_changed"`      // readonly: read-only calls after which the Go struct differed
-	ROCalls  int    `json:"ro_calls"`
-	Outs    [][]int `json:"outs"`              // detn: distinct outputs over all repetitions and histories
-	Marshals int    `json:"marshals"`
-	Histories int   `json:"histories"`
-	OutDirect []int `json:"out_direct"`        // marshal(det): bytes from a direct fast-path call with Flags = Deterministic only
-	OutNil    []int `json:"out_nil"`           // append: MarshalAppend(prefix, typed nil pointer)
+	Ev        string   `json:"ev"`
+	Ok        bool     `json:"ok"`
+	Err       string   `json:"err,omitempty"`
+	Panic     string   `json:"panic,omitempty"`
+	Out       []int    `json:"out"`
+	N         int      `json:"n"`
+	NDirect   int      `json:"n_direct"`
+	St        J        `json:"st,omitempty"` // struct-level (impl reflection) projection after the op
+	FastEq    bool     `json:"fast_eq"`      // projection through pulsar fast reflection equals St
+	RefOk     bool     `json:"ref_ok"`       // twin outcome
+	RefOut    []int    `json:"ref_out"`      // twin bytes
+	RefN      int      `json:"ref_n"`
+	RefSt     J        `json:"ref_st,omitempty"` // twin projection
+	RefErr    string   `json:"ref_err,omitempty"`
+	Case      int      `json:"case"`
+	Equal     bool     `json:"equal"` // lib: proto.Equal(current, other)
+	RefEqual  bool     `json:"ref_equal"`
+	EqualSelf bool     `json:"equal_self"` // Equal(m, m), Equal(m, Clone(m)), Equal(pulsar, dynamic twin)
+	CloneOk   bool     `json:"clone_ok"`   // clone equal and independent
+	InitOk    bool     `json:"init_ok"`
+	JSONOk    bool     `json:"json_ok"` // protojson both directions agree with the reference
+	TextOk    bool     `json:"text_ok"`
+	LibNote   string   `json:"lib_note,omitempty"`
+	StBefore  J        `json:"st_before,omitempty"` // alias ops: projection before the disturbance
+	OutBefore []int    `json:"out_before"`
+	ROChanged []string `json:"ro_changed"` // readonly: read-only calls after which the Go struct differed
+	ROCalls   int      `json:"ro_calls"`
+	Outs      [][]int  `json:"outs"` // detn: distinct outputs over all repetitions and histories
+	Marshals  int      `json:"marshals"`
+	Histories int      `json:"histories"`
+	OutDirect []int    `json:"out_direct"` // marshal(det): bytes from a direct fast-path call with Flags = Deterministic only
+	OutNil    []int    `json:"out_nil"`    // append: MarshalAppend(prefix, typed nil pointer)
 	evName    string
 }
 
@@ -112,13 +112,13 @@ func jsonEq(a, b any) bool {
 }
 
 type codecRunner struct {
-	mt   protoreflect.MessageType
-	md   protoreflect.MessageDescriptor
-	p    proto.Message    // pulsar message
-	d    *dynamicpb.Message // reference twin
-	out  *bufio.Writer
-	n    int
-	caseN int
+	mt         protoreflect.MessageType
+	md         protoreflect.MessageDescriptor
+	p          proto.Message      // pulsar message
+	d          *dynamicpb.Message // reference twin
+	out        *bufio.Writer
+	n          int
+	caseN      int
 	nilPlanted bool // Go-level nil messages were planted into the current message (plantnil)
 }
 
@@ -741,6 +741,10 @@ func randomCodecPlan(g *val.Gen, mt protoreflect.MessageType, mode string, emit 
 		emit(Op{Op: "size", Det: true, Tag: "merge"})
 		// decoding a concatenation equals decoding the first then merging the second
 		emit(Op{Op: "unmarshal", In: proj.Bytes(append(append([]byte(nil), x...), y...)), Tag: "concat"})
+		// a caller-set recursion limit that the stream fits exactly is enough
+		if dm := dynamicpb.NewMessage(md); proto.Unmarshal(x, dm) == nil {
+			emit(Op{Op: "unmarshal", In: proj.Bytes(x), Limit: 1 + msgDepth(dm.ProtoReflect()), Tag: "at-limit"})
+		}
 		// Go-level history: lists resliced shorter (the dropped element stays in the spare capacity),
 		// then decoded into again with the Merge option: the appended elements must be fresh
 		emit(Op{Op: "load", T: t, V: v})
